@@ -735,6 +735,9 @@ for op in plan_ops + [o for f in ('pred_spelling', 'join_tables', 'ts_pred', 'dm
 rng.shuffle(flow_ops)
 flow_ops = flow_ops[:120]
 
+# every harvested planner scenario belongs to some family (so that its family history runs it twice in one process)
+for i_ in range(0, len(plan_ops), 25):
+    fam('plan_harvest_%d' % (i_ // 25), plan_ops[i_:i_ + 25])
 # natural families from the harvested plan ops: all ops that share one catalog
 by_cat = collections.defaultdict(list)
 for op in plan_ops:
